@@ -81,6 +81,7 @@ def Op.holderNeverSigns (h : Addr) : Op → Bool
   | .send f _ _ => f ≠ h
   | .msend f _ => f ≠ h
   | .iosend ins _ => ins.all fun i => i.1 ≠ h
+  | .bsend f _ _ => f ≠ h
   | .accept to _ _ | .decline to _ _ => to ≠ h
   | .qadd _ _ _ p => p ≠ h
 
@@ -89,6 +90,7 @@ def Op.holderNotNamed (h : Addr) : Op → Bool
   | .send f t _ => f ≠ h && t ≠ h
   | .msend f outs => f ≠ h && outs.all fun o => o.1 ≠ h
   | .iosend ins t => t ≠ h && ins.all fun i => i.1 ≠ h
+  | .bsend f t _ => f ≠ h && t ≠ h
   | .qadd to _ _ p => p ≠ h && to ≠ h
   | op => op.holderNeverSigns h
 
